@@ -6,6 +6,7 @@ q[n], and - in the first pass over an unmatched column - a temporary list of ent
 overwrite entries it has not read yet: nothing bounds |heap| + |Q2| + unread entries by n.  (On the pinned tree this happened in mc64wd_ for
 columns with several rows tying at the minimum; fixed in ec00b50.)  The rule: no counting loop over v both reads ARR[v] and writes ARR
 (directly at an index other than v, or through a callee that may write it), for the work arrays of the MC64 kernels."""
+import re
 from ..facts import strip, callee_name, loc, root_ref
 from ..ir import pretty
 
@@ -407,4 +408,81 @@ def reset_cover_rule(chk, cid, prog, cfgname):
                 chk.violate(cid, inst, loc(f, resolved[0][0]) if resolved else loc(f, f.body), fname,
                             'the reset sweeps of d[] (%s) do not cover the %s: rows are pushed with `--%s; q[%s] = i`, so a row pushed below the first reset '
                             'position keeps its distance from this search when the next column is searched' % (spans, what, fr, fr), cfgname=cfgname)
+    return n
+
+
+def heap_position_typestate(chk, cid, prog, cfgname):
+    """In the searches of mc64bd_ / mc64wd_ the mark l[i] of a row is a typestate: 0 = not reached, 1..qlen = its position in the heap, >= low = it
+    sits in the stack of finalised rows (>= up: already scanned).  mc64dd_ / mc64fd_ take l[i] as a *heap position*; a finalised row handed to
+    them is sifted through the heap from a position that is not in it, and is pushed a second time.  A new distance can round one ulp below
+    the final one, so the distance test alone does not keep finalised rows out.  Every call of a heap routine in a column scan must
+    therefore be reached only over the false edge of a test `l[i] >= low` made in the same iteration."""
+    from ..facts import strip, canon, loc, callee_name
+    from ..ir import pretty
+    from ..run import AnalysisBroken
+    chk.clause(cid, 'MC64 column scans hand a row to the heap routines only after `l[i] >= low` (finalised) has been excluded in the same iteration')
+    n = 0
+    for fname in ('mc64bd_', 'mc64wd_'):
+        f = prog.func(fname)
+        if f is None:
+            raise AnalysisBroken('%s not found' % fname)
+        chk.saw(unit=f.unit, func=f.unit + ':' + f.name)
+        cfg = prog.cfg(f)
+        node_of = {}
+        for cn in cfg.nodes:
+            if cn.ast is not None and cn.kind in ('stmt', 'cond'):
+                for x in cn.ast.walk():
+                    node_of.setdefault(id(x), cn.id)
+
+        def txt(e):
+            return canon(e, ids=False).replace(' ', '').replace('(', '').replace(')', '')
+        for lp in f.body.walk():
+            if lp.k != 'For' or lp.c[1] is None:
+                continue
+            inner_for = [x for x in lp.c[3].walk() if x.k == 'For']
+            calls = [x for x in lp.c[3].walk() if x.k == 'Call' and callee_name(x) in ('mc64dd_', 'mc64fd_')]
+            if not calls or inner_for:
+                continue
+            # the loop's own test
+            H = next((cn.id for cn in cfg.nodes if cn.kind == 'cond' and cn.ast is not None and (cn.ast is lp.c[1] or strip(cn.ast) is strip(lp.c[1]))), None)
+            if H is None:
+                raise AnalysisBroken('%s: loop test of the column scan not found in the CFG' % fname)
+            guards = set()
+            revisits = False
+            for cn in cfg.nodes:
+                if cn.kind == 'cond' and cn.ast is not None and any(y is cn.ast or strip(y) is strip(cn.ast) for y in lp.c[3].walk()):
+                    t = txt(cn.ast)
+                    # mc64wd_: the mark itself says "finalised"; mc64bd_: finalised rows are exactly those whose distance reached the bottleneck
+                    if re.match(r'^l\[\w+\]>=low$', t) or (fname == 'mc64bd_' and t == 'di>=bv'):
+                        guards.add(cn.id)
+                    if re.match(r'^l\[\w+\]>=up$', t):
+                        revisits = True
+            if not revisits:
+                continue        # the scan of the root column meets every row once, before anything was finalised
+            for call in calls:
+                N = node_of.get(id(call))
+                seen = set()
+                st = [s for (s, lab) in cfg.nodes[H].succ if lab is True]
+                while st:
+                    q = st.pop()
+                    if q in seen or q == H:
+                        continue
+                    seen.add(q)
+                    for (s, lab) in cfg.nodes[q].succ:
+                        if q in guards and lab is False:
+                            continue            # paths that passed the exclusion test are fine: do not follow them
+                        st.append(s)
+                n += 1
+                inst = '%s:%s-after-finalised-rows-excluded@%d' % (fname, callee_name(call), n)
+                if N is None:
+                    raise AnalysisBroken('%s: call node not found' % fname)
+                if N not in seen:
+                    chk.ok(cid, inst, sample='%d exclusion test(s) `l[i] >= low` in the scan; the call at line %d lies behind one on every path' % (len(guards), call.line))
+                else:
+                    chk.violate(cid, inst, loc(f, call), fname,
+                                '`%s` (line %d) can be reached in a scan iteration without passing the false edge of a test `l[i] >= low`: a row that is '
+                                'already in the stack of finalised rows (its new distance can round below the final one) is treated as a heap element, sifted from '
+                                'a position outside the heap and pushed twice' % (pretty(call)[:50], call.line), cfgname=cfgname)
+    if n < 4:
+        raise AnalysisBroken('%s: %d heap calls in column scans found, expected 4' % (cid, n))
     return n
